@@ -7,13 +7,15 @@ import numpy as np
 from .. import cases, monitors
 
 TITLE = "Shuffle sampler emits wrapped translations with separated pivots"
-DECIDING = ["M-SHUFFLE", "M-SEPARATION", "M-INTEGRAL", "M-REINIT", "M-CONCURRENT-DRAWS"]
+DECIDING = ["M-SHUFFLE", "M-SEPARATION", "M-INTEGRAL", "M-REINIT", "M-CONCURRENT-DRAWS", "M-GT-ALIAS"]
 LEVEL = "exploration"
 RULE = ("seeded random reference continua (2-5 annotators, some possibly empty, labelled and unlabelled, integer / "
         "dyadic / generic times, negative times, default bounds or reset bounds) x ground-truth subsets (>= 2, holding at "
         "least one unit) x both pivot types (given as the literal, as an equal string built at run time, or as a numpy string) x 30 (quick) / 100 (thorough) draws each; in 30 % of the cases the same "
         "cases 2-4 threads then draw from the same sampler concurrently (switch interval 1e-6); in 30 % the "
-        "sampler object is then re-initialised on a second reference with much longer units and sampled again; for every sample the monitor "
+        "sampler object is then re-initialised on a second reference with much longer units and sampled again; in 30 % the reference reaches the "
+        "sampler through copy() / an out-of-place merge / + / an in-place merge of two halves; half of the 3+ ground truths are handed over as a SortedSet "
+        "that the caller edits after init_sampling; the minimal pivot distance is computed from the case's own unit durations; for every sample the monitor "
         "infers, from the output alone, for each sampled annotator a source annotator and a pivot that explain all its "
         "units (translation, wrap-around by the continuum's length, same labels and durations), then checks pivot "
         "bounds, integrality and pairwise separation. non-trivial = sample of a reference with >= 2 units; distinct = "
@@ -203,17 +205,51 @@ def _check_reference(ctx, case, sampler, cspec, ground_truth):
     rng_spy = _state_rng()
     case = dict(case, ground_truth=ground_truth)
     continuum = cases.build_continuum(cspec)
+    via = case.get("built_via")
+    if via:
+        # the reference reaches the sampler through copy() / an out-of-place merge / + / an in-place merge of two halves
+        # (equal, by ==, to the continuum built directly)
+        from pygamma_agreement import Continuum
+        names_ = sorted(cspec["ann"].keys())
+        half_a = {"ann": {a: us[: len(us) // 2] for a, us in cspec["ann"].items()}}
+        half_b = {"ann": {a: us[len(us) // 2:] for a, us in cspec["ann"].items()}}
+        ca, cb = cases.build_continuum(half_a), cases.build_continuum(half_b)
+        if via == "copy":
+            continuum = continuum.copy()
+        elif via == "merge":
+            continuum = ca.merge(cb, in_place=False)
+        elif via == "plus":
+            continuum = ca + cb
+        elif via == "merge-in-place":
+            ca.merge(cb, in_place=True)
+            continuum = ca
+        ctx.observe("reference_built_via", via)
+        if cases.spec_of(continuum)["ann"] != {a: [list(u) for u in sorted((tuple(x) for x in cspec["ann"][a]), key=cases.unit_key)] for a in names_}:
+            ctx.observe("reference_built_via_differs", via)      # C13's business; the sampler is judged on what it was given
+            return
     if case.get("reset_bounds"):
         continuum.reset_bounds()
     gt = ground_truth or sorted(cspec["ann"].keys())
     ref = {a: sorted((tuple(u) for u in cspec["ann"][a]), key=cases.unit_key) for a in cspec["ann"]}
     case["_bounds"] = tuple(continuum.bounds)
-    case["_avg_len"] = continuum.avg_length_unit
+    # mean duration of the reference's units, from the case itself (not through the library)
+    durs = [u[1] - u[0] for us in cspec["ann"].values() for u in us]
+    case["_avg_len"] = sum(durs) / len(durs)
+    gt_arg = None if ground_truth is None else list(ground_truth)
+    if ground_truth is not None and case.get("gt_as") == "sortedset-edited-afterwards":
+        from sortedcontainers import SortedSet
+        gt_arg = SortedSet(ground_truth)
     try:
-        sampler.init_sampling(continuum, None if ground_truth is None else list(ground_truth))
+        sampler.init_sampling(continuum, gt_arg)
     except Exception as e:
         ctx.fail_exc(f"init_sampling-raises:{type(e).__name__}", e, monitor="M-SHUFFLE")
         return
+    if ground_truth is not None and case.get("gt_as") == "sortedset-edited-afterwards":
+        # the caller goes on using its own set (a leave-one-out loop): the sampler was initialised with the set as it was
+        gt_arg.discard(sorted(ground_truth)[0])
+        for extra in sorted(set(cspec["ann"].keys()) - set(ground_truth))[:1]:
+            gt_arg.add(extra)
+        ctx.count("M-GT-ALIAS")
     before = monitors.snapshot_continuum(continuum)
     for i in range(case["draws"]):
         _spy["pivots"] = []
@@ -288,6 +324,10 @@ def gen_case(ctx):
             "draws": 30 if ctx.tier == "quick" else 100}
     if rng.random() < 0.25:
         case["threads"] = rng.choice([2, 4])
+    if rng.random() < 0.3 and all(len(us) >= 1 for us in cspec["ann"].values()):
+        case["built_via"] = rng.choice(["copy", "merge", "plus", "merge-in-place"])
+    if gt is not None and len(gt) >= 3 and rng.random() < 0.5:
+        case["gt_as"] = "sortedset-edited-afterwards"
     if rng.random() < 0.3:
         # a second reference for the same sampler object: long units spread over a long continuum (other average length)
         n2 = rng.randint(2, 3)
@@ -307,6 +347,17 @@ def gen_case(ctx):
 
 
 def run(ctx):
+    # deterministic first block: a reference obtained by copy / merge, a ground truth handed over as a SortedSet that the
+    # caller edits afterwards
+    for k0, via in enumerate(["copy", "merge", "plus", "merge-in-place"]):
+        cs0 = cases.gen_continuum(ctx.rng, n_annot=4, sizes=[4, 3, 4, 3], family="grid", labels=cases.LABELS_SMALL, names=cases.ANNOTATOR_NAMES[:4])
+        cs0.pop("readd", None)
+        case = {"continuum": cs0, "ground_truth": cases.ANNOTATOR_NAMES[1:4] if k0 % 2 else None, "pivot_type": ["float_pivot", "int_pivot"][k0 % 2],
+                "reset_bounds": k0 >= 2, "np_seed": 70 + k0, "pivot_str": "literal", "draws": 30, "built_via": via,
+                "gt_as": "sortedset-edited-afterwards"}
+        ctx.begin_case(case)
+        ctx.observe("family", "deterministic-first-block")
+        check_case(ctx, dict(case))
     for _ in range(ctx.scale(110, 3000)):
         if ctx.out_of_time():
             break
